@@ -310,18 +310,24 @@ def search_dispatcher(ctx, valid, n):
         p = protoinfo.by_name()[name]
         d.reset()
         d.set_enabled(set(d.names))
-        rec = d.call(fs[0], p['frequency'])
-        rec['op'] = ('frame', name, {}, 0, fs[0], p['frequency'])
-        recs.append(rec)
-        ctx.count_eval(key=('dispatcher-valid', name))
-        if rec['result'][0] == 'raise':
-            culprit = d.names[rec['log'][-1][0]] if rec['log'] else '?'
-            key = (rec['result'][1], culprit)
-            if key in seen:
-                continue
-            seen.add(key)
-            ctx.report('dispatcher', 'protocols.decode raises %s (from %s)' % key, dict(n=len(fs[0])),
-                       dict(data=fs[0], frequency=p['frequency'], exception=rec['result'][1], decoder=culprit, valid_frame_of=name))
+        # ... and a short history without a reset in between: the same first frame again (its follow-up was lost), a damaged copy,
+        # the next frame of the code - the dispatcher's shortcuts through the held key and the last-used decoder are only taken then
+        hist = [fs[0], fs[0], fs[0][:-3] + fs[0][-1:], fs[min(1, len(fs) - 1)], fs[0]]
+        for step, fr in enumerate(hist):
+            rec = d.call(fr, p['frequency'])
+            rec['op'] = ('frame', name, {}, 0, fr, p['frequency'])
+            if step == 0:
+                recs.append(rec)
+            ctx.count_eval(key=('dispatcher-valid', name, step))
+            if rec['result'][0] == 'raise':
+                culprit = d.names[rec['log'][-1][0]] if rec['log'] else '?'
+                key = (rec['result'][1], culprit)
+                if key not in seen:
+                    seen.add(key)
+                    ctx.report('dispatcher', 'protocols.decode raises %s (from %s)' % key, dict(n=len(fr)),
+                               dict(data=fr, frequency=p['frequency'], exception=rec['result'][1], decoder=culprit, valid_frame_of=name,
+                                    history=[list(h) for h in hist[:step]]))
+                break
     d.reset()
     return recs
 
@@ -472,6 +478,11 @@ def replay(path):
             return 1
     if 'data' in r:
         from pyIRDecoder import protocols
+        for h in r.get('history') or []:
+            try:
+                protocols.decode(list(h), r.get('frequency', 0))
+            except Exception:  # noqa
+                pass
         try:
             print(protocols.decode(list(r['data']), r.get('frequency', 0)))
             return 0
